@@ -328,17 +328,103 @@ def updEnt (v : Vals K N T) (sn st so : Bool) (lvl : Option (Bool × N)) (e : En
   | some (true, l) => { e1 with level := some l }
   | _ => e1
 
-/-- body of `Update` on the stored bucket `e`: `ProcessBeforeUpdate` (the system check puts its
-    error into the bucket's error holder, so every setter of `PersistEntity` is a no-op and
-    `bucket.Err` is returned), `PersistEntity`, `ProcessAfterUpdate` (fk: only a CHANGED owner is
-    looked up) -/
+/-! ### the entity bucket with its error holder (round 9)
+
+  `Update` does not branch on the verdict of `ProcessBeforeUpdate`: the system check puts its error
+  into the entity bucket's `ErrorHolderImpl` (`ctx.ErrHolder` of the indexing context IS the bucket;
+  `GetParentContext()` shares it between the child store's and the parent's persist context),
+  `PersistEntity` runs all the same, `ProcessAfterUpdate` skips the constraints of a holder that has
+  an error, and `bucket.Err` is returned.  That a refused update writes nothing therefore rests on
+  EVERY setter the strategy calls asking `ProceedWithSet` first.  The model follows that: a
+  `PersistEntity` is a list of setter calls (`Write`) run against a bucket `Bkt` that carries the
+  error holder. -/
+
+/-- a `TypedBucket` during `Update`: the content of the entity bucket, its error holder, and whether
+    anything was `Put` into it -/
+structure Bkt (K N T : Type) where
+  ent : Ent K N T
+  err : Option Err
+  wrote : Bool := false
+
+/-- `TypedBucket.ProceedWithSet(name, checker)`:
+    `bucket.Err == nil && (checker == nil || checker.IsUpdated(name))`; `chk` = the second conjunct -/
+def Bkt.proceedWithSet (b : Bkt K N T) (chk : Bool) : Bool := b.err.isNone && chk
+
+/-- one setter call of a `PersistEntity` -/
+inductive Write (K N T : Type)
+  /-- `SetString`, `SetStringP`, `GetAndSetString`, `SetBool`, `SetInt32`, `SetInt64`, `SetFloat64`,
+      `SetTime`, `SetTimeP`, `PutMap` / `SetMap`, `PutList`, `SetStringList`, `GetAndSetStringList`,
+      `SetLinkedIds`: `if ProceedWithSet(field) { write }` (`w` = what the write does to the bucket) -/
+  | set (chk : Bool) (w : Ent K N T → Ent K N T)
+  /-- `SetRequiredString`: `if ProceedWithSet(field) { if value == "" { SetError(field error); return }; write }` -/
+  | require (chk : Bool) (blank : Bool) (er : Err) (w : Ent K N T → Ent K N T)
+
+/-- the shape of a setter's source as the extractor (`/verif/extract/c16setters.go`, from
+    boltz/typed_bucket.go and boltz/base.go) classifies it:
+    `gated`: `[x := recv.Get…(…)]* ; if recv.ProceedWithSet(field[, checker]) { … } ; [return …]*`;
+    `required`: gated, the block starting with `if value == "" { SetError(…); return }`;
+    `delegate`: a `PersistContext` method whose body is one call of a gated `TypedBucket` setter on
+    `ctx.Bucket` with `ctx.FieldChecker`; `unknown`: anything else -/
+inductive SetterShape
+  | gated | required | delegate | unknown
+  deriving DecidableEq, Repr
+
+/-- what a call of a setter of that shape is in the model (`none`: the model has no meaning for it) -/
+def SetterShape.write : SetterShape → (chk blank : Bool) → Err → (Ent K N T → Ent K N T) → Option (Write K N T)
+  | .gated, chk, _, _, w => some (.set chk w)
+  | .delegate, chk, _, _, w => some (.set chk w)
+  | .required, chk, blank, er, w => some (.require chk blank er w)
+  | .unknown, _, _, _, _ => none
+
+def SetterShape.modelled : SetterShape → Bool
+  | .unknown => false
+  | _ => true
+
+def Write.run : Write K N T → Bkt K N T → Bkt K N T
+  | .set chk w, b => if b.proceedWithSet chk then { b with ent := w b.ent, wrote := true } else b
+  | .require chk blank er w, b =>
+    if b.proceedWithSet chk then
+      (if blank then { b with err := some er } else { b with ent := w b.ent, wrote := true })
+    else b
+
+/-- `PersistEntity`: the strategy's setter calls, in order, against one bucket -/
+def runWrites (ws : List (Write K N T)) (b : Bkt K N T) : Bkt K N T := ws.foldl (fun b w => w.run b) b
+
+/-- `PersistEntity` of S with `IsCreate = false`, statement by statement: `UpdateBaseValues`
+    (`SetTimeP(updatedAt, &now, nil)`, `PutMap(tags, …, checker)`), the name, the owner; through the
+    child store the parent part comes first (`GetParentContext()`: same error holder), then `level`.
+    The harness's WIDE strategies (case kinds ending in `W`) persist the name / the level through
+    `GetAndSetString` / `SetStringP` and, next to it, copies derived from it through every other
+    setter (`SetRequiredString`, `SetInt32`, `SetInt64`, `SetBool`, `SetTime(P)`, `SetFloat64`,
+    `SetStringList`, `GetAndSetStringList`, `SetMap`, `PutList`) under the same checker bit: in the
+    model that is the one `name` (`level`) write — the view reports a copy that disagrees. -/
+def stratWrites (v : Vals K N T) (sn st so : Bool) (lvl : Option (Bool × N)) : List (Write K N T) :=
+  [ .set true (fun e => { e with updated := .now }),
+    .set st (fun e => { e with tags := v.tags }),
+    .set sn (fun e => { e with name := v.name }),
+    .set so (fun e => { e with owner := v.owner }) ] ++
+  match lvl with
+  | some (sl, l) => [ .set sl (fun e => { e with level := some l }) ]
+  | none => []
+
+/-- body of `Update` on the stored bucket `e`, for ANY strategy (`ws` = the setter calls of its
+    `PersistEntity`): `ProcessBeforeUpdate` (the system check puts its error into the bucket's
+    error holder), `PersistEntity`, `ProcessAfterUpdate` (skipped when the holder has an error; fk:
+    only a CHANGED owner is looked up), `return bucket.Err` -/
+def updateWith (ws : List (Write K N T)) (s : St K N T) (sys : Bool) (id : K) (e : Ent K N T) : Out K N T :=
+  let b0 : Bkt K N T := { ent := e, err := if refused s id sys then some .sysUpdate else none }
+  let b1 := runWrites ws b0
+  let s1 := if b1.wrote then s.putEnt id b1.ent else s
+  match b1.err with
+  | some er => { st := s1, err := some er }
+  | none =>
+    if decide (b1.ent.owner ≠ e.owner) && !ownerOk s b1.ent.owner then { st := s1, err := some .noOwner } else { st := s1 }
+
+/-- `Update` of S / C: `updateWith` the strategy of the universe (`updateOn_eq`: a refused update
+    returns `sysUpdate` with the state untouched, otherwise the bucket becomes `updEnt …`) -/
 def updateOn (s : St K N T) (sys : Bool) (id : K) (v : Vals K N T) (sn st so : Bool) (lvl : Option (Bool × N))
     (e : Ent K N T) : Out K N T :=
-  if refused s id sys then { st := s, err := some .sysUpdate }
-  else
-    let e2 := updEnt v sn st so lvl e
-    let s1 := s.putEnt id e2
-    if decide (e2.owner ≠ e.owner) && !ownerOk s e2.owner then { st := s1, err := some .noOwner } else { st := s1 }
+  updateWith (stratWrites v sn st so lvl) s sys id e
 
 /-- `S.DeleteById` (also reached through C): not found; `ProcessBeforeDelete` — for an entity with
     child data the child store's constraints run first, and they start with S's (`Parent`) —; else
